@@ -419,6 +419,32 @@ func headerHas(stmt ast.Stmt) (before bool, recv bool) {
 	return
 }
 
+// exprHas reports whether an expression performs an atomic or channel operation
+// outside function literals.
+func exprHas(e ast.Expr) bool {
+	found := false
+	ast.Inspect(e, func(n ast.Node) bool {
+		switch x := n.(type) {
+		case *ast.FuncLit:
+			return false
+		case *ast.UnaryExpr:
+			if x.Op == token.ARROW {
+				found = true
+			}
+		case *ast.CallExpr:
+			if se, ok := x.Fun.(*ast.SelectorExpr); ok {
+				if id, ok := se.X.(*ast.Ident); ok && id.Name == "atomic" {
+					found = true
+				} else if atomicMethods[se.Sel.Name] && isAtomicRecv(se.X) {
+					found = true
+				}
+			}
+		}
+		return true
+	})
+	return found
+}
+
 // isAtomicRecv is a syntactic guess: receivers named like the atomic fields of
 // the code base (counter, eventJoinIgnore, seq, ...). A false positive only adds
 // a harmless yield.
@@ -452,6 +478,16 @@ func (r *rw) stmts(list []ast.Stmt) []ast.Stmt {
 			r.ifStmt(s)
 		case *ast.ForStmt:
 			r.block(s.Body)
+			if !r.lite && s.Cond != nil && exprHas(s.Cond) {
+				// a loop condition that performs an atomic or channel operation (a retry
+				// loop around a compare-and-swap): for init; ; post { yield; if !(cond) { break }; body }
+				// evaluates it at the same points and lets the scheduler in before each one
+				brk := &ast.IfStmt{Cond: &ast.UnaryExpr{Op: token.NOT, X: &ast.ParenExpr{X: s.Cond}},
+					Body: &ast.BlockStmt{List: []ast.Stmt{&ast.BranchStmt{Tok: token.BREAK}}}}
+				s.Body.List = append([]ast.Stmt{r.yieldStmt(s), brk}, s.Body.List...)
+				s.Cond = nil
+				r.useV, r.changed = true, true
+			}
 		case *ast.RangeStmt:
 			r.block(s.Body)
 			if blk := r.sortedRange(s); blk != nil {
